@@ -432,7 +432,7 @@ MANIFEST = {
             "hold a live intermediate file, so the overlap is observed, not hoped for; runs without the barrier and with random "
             "start offsets are added. Every temp path each process opens/creates/removes is logged by an audit hook and checked "
             "offline together with an independent inotify log; each output is compared with a solitary import through plain "
-            "sqlite3. Reader processes read a finished database simultaneously while an import runs beside them.",
+            "sqlite3. Reader processes read a finished database simultaneously while an import runs beside them. Variants: outputs sharing a basename in different directories, flat inputs without second-level relations, a deliberately failing neighbour import released while the healthy ones hold their intermediate files, imports of ~2*10^5 features, and a look into the directory while each importer process is still alive; readers also run region/limit queries.",
     "note": "Trusted: the OS scheduler only for the free-running class; CPython audit events for open/remove/mkstemp. Evidence "
             "reports the maximum number of simultaneously live intermediate files actually seen.",
 }
